@@ -10,6 +10,18 @@ func lemmaObligations(s *Session, prop, tier string) ([]*Obligation, []interface
 		obls = append(obls, frameLemmaObligations([]string{prop})...)
 		obls = append(obls, hintLemmaObligations([]string{prop})...)
 	}
+	switch prop {
+	case "C06":
+		obls = append(obls, s.lemmasC06()...)
+	case "C07":
+		obls = append(obls, s.lemmasC07()...)
+	case "C08":
+		obls = append(obls, s.lemmasC08()...)
+	case "C09":
+		o, b := s.lemmasC09(tier)
+		obls = append(obls, o...)
+		bounded = append(bounded, b...)
+	}
 	return obls, bounded, assume
 }
 
